@@ -3,6 +3,7 @@ HOOK_COMMITS = ['fba6b35', '69c1f84', 'ee68f01']
 T = 'Coq proof over Gallina model + differential correspondence + oracle'
 Q = 'theorems on exact rationals, execution on binary32'
 CLAIMED = {
+    'C01': (T, 'progress of the path scanner, termination of the use / reuse and clip-path walks, unreachability of the modelled panic site, the retry pass budget and the depth cut proved for all inputs; whole-pipeline fuel adequacy, quick-xml, clap, axum and the real stack size are outside the model and rest on the process-level oracle through all four front-ends (partial)', None),
     'C02': (T, 'well-formedness proved at the lexical level of the model reader; expat is the independent oracle', None),
     'C03': (T, 'reader represented by the model read_xml, tied by byte-level correspondence; custom DTD entities outside the model', None),
     'C04': (T, 'list / points syntax acceptance and the frame property of position rewriting proved; path and transform scanners modelled and compared bit-exactly; tree-preservation oracle over the SVG 1.1 vocabulary (partial: no acceptance theorem for path data, see K8)', None),
